@@ -39,6 +39,12 @@ NotFoundClasses == {"nf_path", "nf_method"}
 InvalidClasses == {"inv_body", "inv_param", "inv_pathlevel", "inv_security"}
 ReqClasses == ValidClasses \cup NotFoundClasses \cup InvalidClasses
 ErrModes   == {"default", "custom"}
+(* the request the SAME middleware instance served just before the one under observation (realised by the harness):  *)
+(*   p204      a valid request whose handler answers 204 without a body                                            *)
+(*   pbadresp  a valid request whose handler answers 200 with a body that violates the schema                      *)
+(*   pbadreq   a request with a schema-violating body (rejected at the gate)                                       *)
+(* The middleware keeps no state between requests (L2 below has none), so the contract ignores the primer.        *)
+Primers    == {"none", "p204", "pbadresp", "pbadreq"}
 
 (* the bytes behind each body token; P1 \o P2 = A on purpose (writes in pieces) *)
 Bytes(t) == CASE t = "A"  -> "{\"id\":1}"
@@ -195,7 +201,10 @@ WInit == [hw |-> FALSE, st |-> 0, buf |-> <<>>]
 
 Init ==
    /\ cfg \in [strict : BOOLEAN, reqClass : ReqClasses, errMode : ErrModes, gate : {"validator", "vhandler"},
-                opt : {"none", "include_status", "exclude_body"}]
+                opt : {"none", "include_status", "exclude_body"}, primer : Primers]
+   \* history: a Validator serves many requests; what it did for an earlier one (the primer) never shows in a later one
+   /\ (cfg.primer # "none" => cfg.gate = "validator" /\ cfg.strict /\ cfg.errMode = "custom" /\ cfg.opt = "none"
+                               /\ cfg.reqClass \in {"valid_post", "inv_body"})
    /\ (cfg.gate = "vhandler" => ~cfg.strict /\ cfg.errMode = "default" /\ cfg.opt = "none")
    /\ (cfg.opt # "none" => cfg.strict /\ cfg.errMode = "custom" /\ cfg.reqClass = "valid_post")   \* options matter for the strict verdict
    /\ phase = "start" /\ w = WInit /\ hdr = "none" /\ script = <<>> /\ cOut = <<>>
